@@ -99,6 +99,20 @@ func (k *Key) SignSchnorrHash(msg []byte) []byte {
 	return fastSignSchnorr(k.D, k.Pub, msg)
 }
 
+// SignSchnorrHashGrind returns a valid BIP340 signature whose first byte is
+// want, found by varying the auxiliary randomness (ok=false if 4096 attempts
+// do not suffice).
+func (k *Key) SignSchnorrHashGrind(msg []byte, want byte) ([]byte, bool) {
+	for i := 0; i < 4096; i++ {
+		aux := sha256s([]byte{byte(i), byte(i >> 8), 'a', 'u', 'x'})
+		sig := fastSignSchnorrAux(k.D, k.Pub, msg, aux)
+		if sig[0] == want {
+			return sig, true
+		}
+	}
+	return nil, false
+}
+
 // SignTaproot returns the BIP341/342 signature (64 bytes for
 // SIGHASH_DEFAULT, else 65). ok=false when the hash type has no digest.
 func (k *Key) SignTaproot(tx *Tx, idx int, prevouts []TxOut, hashType byte, tapscript bool, ctx *TapCtx) ([]byte, bool) {
